@@ -10,6 +10,10 @@ def replay_form(p: dict) -> int:
         from .kernelprops import replay_purity
 
         return replay_purity(p)
+    if p.get("kind") == "kvk":
+        from .kvk import replay_kvk
+
+        return replay_kvk(p)
     if p.get("kind") == "bounds":
         from .kernelprops import replay_bounds
 
